@@ -328,7 +328,7 @@ def mu_reference_model(model: Model):
         old_def = assignment.expression._sympy_()
         dep = old_def.as_independent(eta)[1]
         mu = Expr.symbol(f'mu_{index[eta]}')
-        if mu in old_def.free_symbols:
+        if mu in assignment.expression.free_symbols:
             # If mu reference is already used, ignore
             pass
         else:
